@@ -286,6 +286,16 @@ def case_composed(B, cfg):
     n_t = sum(split)
     M = _vars(B, 'm', n_ids, n_obs, n_t)
     X = _vars(B, 'x', n_sim, n_obs, n_t)
+    xarr = ps.arr
+    if cfg.get('int_obs'):
+        # simulated measurements handed over as an array of an integer dtype
+        # (counts): the derivative identity is the same.  The float replay
+        # runs at integral values (the point scaled by 1000 and rounded), so
+        # there is no differential run at a common point for these jobs.
+        xarr = ps.int_arr
+        if not B.symbolic:
+            X = [[[float(int(round(1000 * x))) for x in r] for r in i]
+                 for i in X]
     bounds = [sum(split[:q]) for q in range(len(split) + 1)]
     Ms = [[[row[bounds[q]:bounds[q + 1]] for row in ind] for ind in M]
           for q in range(len(split))]
@@ -319,7 +329,7 @@ def case_composed(B, cfg):
                 for o in range(n_obs)] for s in range(n_sim)]
         return build().compute_log_likelihood(ps.arr(B, arr))
     _, g = B.grad(val, flat)
-    score, sens = f.compute_sensitivities(ps.arr(B, X))
+    score, sens = f.compute_sensitivities(xarr(B, X))
     B.eq('composed S1 score', score, v)
     for s in range(n_sim):
         for o in range(n_obs):
@@ -339,7 +349,7 @@ def case_composed(B, cfg):
                for o in range(n_obs)] for s in range(n_sim)]
         B.eq('composed sort_times%r: score unchanged' % (order,),
              f2.compute_log_likelihood(ps.arr(B, Xo)), v)
-        sc, se = f2.compute_sensitivities(ps.arr(B, Xo))
+        sc, se = f2.compute_sensitivities(xarr(B, Xo))
         for s in range(n_sim):
             for o in range(n_obs):
                 for k in range(n_t):
@@ -414,6 +424,13 @@ def jobs(tier):
             out.append(('composed', 'case_composed', dict(
                 kinds=list(p), n_ids=1, n_obs=1, n_sim=n_sim, split=split),
                 {'max_paths': 64}))
+    # simulated measurements of an integer dtype (counts)
+    for kinds_, split in ((('gaussian', 'gaussian'), (1, 1)),
+                          (('gaussian', 'gaussian'), (2, 1)),
+                          (('gaussian', 'lognormal', 'gaussian'), (1, 1, 1))):
+        out.append(('composed', 'case_composed', dict(
+            kinds=list(kinds_), n_ids=1, n_obs=1, n_sim=2, split=split,
+            int_obs=True), {'max_paths': 64, 'diffcheck': False}))
     return out
 
 
@@ -423,7 +440,8 @@ BOUNDS = dict(
           'orders), simulated individuals '
           '2..3 (4 for the mixture; KDE with 3 simulated individuals only on '
           'one cell); composed filters over 3 pairs with splits (1,1), (2,1) '
-          'and over 3-4 sub-filters (flat = nested); '
+          'and over 3-4 sub-filters (flat = nested), also with simulated '
+          'measurements of an integer dtype; '
           'all time permutations; missing values: an all-missing extra '
           'individual, ragged, sparse and uneven (different numbers of '
           'measured individuals per time point) patterns on <= 3 individuals '
